@@ -29,7 +29,10 @@ RULE = ("target find_cuts requests (integer-kappa circuits, compared exactly wit
         "their standard gates are handed out as temporaries - with several parametric two-qubit gates of distinct angles (rzx, xx+-yy, rzz, cp, crx), "
         "the identical request repeated 6 times with other calls, allocations and collections in between (every repeat must return the first "
         "answer); parameter sweeps of exact-weight generation (16 one-cut problems of one shape with distinct angles, separated and unseparated form, each built, "
-        "used, dropped and collected before the next) compared with the same problems generated while all of them are alive")
+        "used, dropped and collected before the next) compared with the same problems generated while all of them are alive; requests in which "
+        "the warm-start pass meets equally cheap moves (left or right input wire of a swap/iswap/dcx gate, or of any gate with gate cuts disabled) "
+        "and its solution is what comes back (max_backjumps 0/1, binding max_gamma, wire-cut-only full search), before and after other such "
+        "requests, repeated back to back, and in a fresh interpreter")
 ASSUMPTIONS = ["Python aliasing and interpreter-level state are outside the Lean model; they are observed by the runtime monitors of this check",
                "the seeded numpy Generator stream is a function of the integer seed (numpy's contract)"]
 LEVEL_TEXT = ("6 Lean 4 theorems over an explicit-global-state model (every call returns the globals it was given, hence outputs are independent of "
@@ -249,8 +252,54 @@ def _sweep_family():
         yield ("generate", {"problem": probs[1], "history": [], "sweep": probs, "scramble": list(sc), "always_oracle": True})
 
 
+def _gates(nq, gates, width, seed, **kw):
+    """a request on a circuit of fixed two-qubit gates given as (name, a, b); all of them have an integer kappa (cx 3, swap/iswap/dcx 7),
+    so the history-free model decides every tie exactly"""
+    t = _cxs(nq, [], width, seed, **kw)
+    t["instrs"] = [{"name": n, "qubits": [a, b]} for n, a, b in gates]
+    return t
+
+
+def _sw(pairs, name="swap"):
+    return [(name, a, b) for a, b in pairs]
+
+
+def _warm_start_tie_family():
+    """deterministic: requests in which the warm-start (greedy) pass has to choose between equally cheap moves AND its choice is what the
+    caller gets back.  Equally cheap moves: cutting the left or the right input wire of a gate (both x4), which compete with each other
+    when cutting the gate is dearer than that (swap, iswap, dcx: x7) or not allowed (gate_lo=False).  The warm-start solution comes back
+    when the search proper is cut short (max_backjumps 0/1) or may not leave it behind (binding max_gamma), or supplies the pruning bound
+    of a full wire-cut-only search.  Each target is evaluated history-free, after a history of other requests of the same sort (which go
+    through different numbers of warm-start steps), repeated back to back, and (two of them) in a fresh interpreter"""
+    sc = [12345, 12345, 7]
+    h_swaps = _gates(5, _sw([(0, 3), (1, 4), (2, 4), (4, 3), (2, 3), (0, 1)]), 3, 100, gate_lo=False)
+    h_ring = _gates(5, _sw(RING5, "iswap"), 3, 101, max_backjumps=0)
+    h_cx = _gates(4, _sw([(0, 1), (1, 2), (2, 3), (0, 3), (1, 3)], "cx"), 2, 5, gate_lo=False, max_backjumps=1)
+    h_one = _gates(3, _sw([(0, 1), (1, 2)], "dcx"), 2, 3, max_backjumps=0)
+    fams = [
+        # swaps only, search cut short at once
+        (_gates(5, _sw([(2, 4), (1, 0), (2, 1), (0, 4), (2, 0), (2, 1), (2, 1)]), 3, 7, max_backjumps=0), [h_swaps, h_one], 3, True),
+        # controlled gates and swaps mixed
+        (_gates(4, [("cx", 0, 2), ("swap", 3, 1), ("swap", 1, 0), ("cx", 3, 2), ("swap", 0, 1), ("swap", 2, 1), ("swap", 2, 0)], 3, 7, max_backjumps=0),
+         [h_ring], 2, False),
+        # wire cuts only: full search whose pruning bound is the warm-start solution
+        (_gates(4, _sw([(1, 0), (2, 3), (1, 0), (3, 0), (2, 1), (3, 0)], "cx"), 3, 7, gate_lo=False), [h_cx, h_swaps], 2, False),
+        # wire cuts only on controlled gates, search cut short
+        (_gates(5, _sw([(3, 0), (1, 4), (2, 4), (4, 3), (2, 3)], "cx"), 4, 7, gate_lo=False, max_backjumps=0), [h_one, h_ring, h_cx], 3, True),
+        # iswap / dcx, one backjump allowed
+        (_gates(5, [("iswap", 2, 4), ("dcx", 1, 0), ("iswap", 2, 1), ("dcx", 0, 4), ("iswap", 2, 0), ("dcx", 2, 1), ("iswap", 3, 1)], 3, 0, max_backjumps=1),
+         [h_swaps, h_cx], 2, False),
+        # a limit on the overhead that the optimum does not meet: the warm-start solution comes back
+        (_gates(6, _sw([(0, 1), (2, 3), (4, 5), (1, 2), (3, 4), (0, 5), (1, 4), (2, 5)]), 3, 11, max_gamma=16.0), [h_ring, h_one], 2, False),
+    ]
+    for tgt, hist, reps, fresh in fams:
+        yield ("history", {"target": tgt, "history": hist, "repeats": reps, "between": hist, "scramble": list(sc), "fresh": fresh,
+                           "always_oracle": True})
+
+
 def cases(rng, tier):
     N = 36 if tier == "quick" else 300
+    yield from _warm_start_tie_family()
     yield from _limits_family()
     yield from _session_family()
     yield from _circuit_family()
@@ -406,6 +455,9 @@ def _light_diff(x, y):
         cut = lambda r: [k for k, e in enumerate(r["instructions"]) if e[0] in ("qpd_2q", "cut_wire")]   # noqa: E731
         if cut(x) != cut(y):
             out.append(f"cut positions in the returned circuit {cut(x)} vs {cut(y)}")
+        elif [x["instructions"][k][:2] for k in cut(x)] != [y["instructions"][k][:2] for k in cut(y)]:
+            where = lambda r: [[r["instructions"][k][0], r["instructions"][k][1]] for k in cut(r)]   # noqa: E731
+            out.append(f"the cuts sit on other qubits: {json.dumps(where(x))[:120]} vs {json.dumps(where(y))[:120]}")
         else:
             out.append("the decompositions attached to the cut gates differ")
     return "; ".join(out)
